@@ -285,7 +285,7 @@ type copier struct {
 	utime                          *time.Time
 	mode                           *int
 	modeSet                        *mode.Set
-	inodes                         map[uint64]string
+	inodes                         map[inodeKey]string
 	xattrErrorHandler              XAttrErrorHandler
 	includePatternMatcher          *patternmatcher.PatternMatcher
 	excludePatternMatcher          *patternmatcher.PatternMatcher
@@ -328,7 +328,7 @@ func newCopier(root string, chown Chowner, tm *time.Time, mode *int, modeSet *mo
 
 	return &copier{
 		root:                           root,
-		inodes:                         map[uint64]string{},
+		inodes:                         map[inodeKey]string{},
 		chown:                          chown,
 		utime:                          tm,
 		xattrErrorHandler:              xeh,
